@@ -42,7 +42,7 @@ FOREIGN = ["c07", "c10", "c12", "c14", "c19", "c16", "c18", "c20", "c17", "c15"]
 
 
 def shards(tier):
-    out = [{"group": g} for g in ("handles", "paths", "errors", "cli", "census")]
+    out = [{"group": g} for g in ("handles", "paths", "errors", "cli", "census", "environment")]
     if tier != "quick":
         import importlib
 
@@ -610,6 +610,8 @@ def run_case(case, ctx):
         return _census(case, ctx)
     if group == "foreign":
         return _foreign(case, ctx)
+    if group == "environment":
+        return _environment(case, ctx)
     with scratch_dir() as d:
         vm = g0 = None
         if group in ("paths", "cli"):
@@ -660,6 +662,79 @@ def run_case(case, ctx):
             except Exception:
                 pass
         _HELD.clear()
+
+
+ENV_VALUES = ["1", "DEBUG", "INFO", "debug", "true", "NOTSET", "/nonexistent/verif/x"]
+
+
+def _env_names():
+    """Environment variables the tree under test consults (string literals next to environ / getenv in its sources)."""
+    import re
+
+    from mc import bootstrap
+
+    names = set()
+    root = os.path.join(bootstrap.repo_root(), "dissect", "hypervisor")
+    pat = re.compile(r"""(?:environ(?:\.get)?\s*[\[(]|getenv\s*\()\s*[rbu]?["']([A-Za-z_][A-Za-z0-9_]*)["']""")
+    for dp, _dn, fns in os.walk(root):
+        for fn in fns:
+            if fn.endswith(".py"):
+                try:
+                    names.update(pat.findall(open(os.path.join(dp, fn), encoding="utf-8", errors="replace").read()))
+                except OSError:
+                    pass
+    return sorted(names)
+
+
+def _environment(case, ctx):
+    """The environment is an input too: every variable the tree consults x a small value alphabet (and the empty environment
+    as control), each in a fresh interpreter (the variable is set before the library is imported) that runs the `paths`
+    workloads from an empty working directory.  Nothing may be opened for writing, the evidence stays as it was and the working
+    directory stays empty."""
+    import json
+    import subprocess
+
+    from mc import bootstrap
+
+    combos = [(None, None)] + [(n, v) for n in _env_names() for v in ENV_VALUES]
+    ctx.extra["environment-variables-consulted"] += len(_env_names())
+    for name, value in combos:
+        if case.get("only") is not None and case["only"] != f"{name}={value}":
+            continue
+        ctx.transitions += 1
+        ctx.states += 1
+        with scratch_dir() as cwd:
+            env = dict(os.environ)
+            env["VERIF_REPO"] = bootstrap.repo_root()
+            if name is not None:
+                env[name] = value
+                ctx.nontrivial += 1
+            code = ("import sys, json; sys.path.insert(0, %r); from mc import engine, bootstrap; "
+                    "engine._winit(bootstrap.repo_root(), 8192, engine.AS_LIMIT); from mc.checks import c09; "
+                    "c = engine.Ctx('C09', None, 0, collect_all=True); c09.run_case({'group': 'paths'}, c); "
+                    "print('ENVCHILD ' + json.dumps([[v['witness'], str(v['detail'])[:300]] for v in c.violations]))"
+                    % os.path.dirname(os.path.dirname(os.path.dirname(os.path.abspath(__file__)))))
+            with ctx.watch(dict(case, only=f"{name}={value}"), 600):
+                p = subprocess.run([sys.executable, "-c", code], cwd=cwd, env=env, capture_output=True, text=True, timeout=500)
+            line = [ln for ln in p.stdout.splitlines() if ln.startswith("ENVCHILD ")]
+            left = sorted(os.listdir(cwd))
+            if left:
+                ctx.violation(dict(case, only=f"{name}={value}"), {"subject": "read-only", "kind": "file-nobody-named", "variable": name},
+                              {"value": value, "files": left[:5]})
+                return
+            if not line:
+                if name is None:
+                    raise AssertionError("harness: environment child produced no verdict: " + (p.stderr or p.stdout)[-400:])
+                # the tree refuses this value for the variable (e.g. an unknown log level) before doing anything: counted
+                ctx.extra["environment-value-refused"] += 1
+                continue
+            found = json.loads(line[0][len("ENVCHILD "):])
+            if found:
+                w = dict(found[0][0])
+                w["variable"] = name
+                ctx.violation(dict(case, only=f"{name}={value}"), w, {"value": value, "child": found[0][1]})
+                return
+            ctx.outcome("clean")
 
 
 def _foreign(case, ctx):
